@@ -198,6 +198,8 @@ def np_array(interp, st, fr, args, kw):
         return PureArr(shape, fn, kind)
     if isinstance(x, Quantity):
         return x
+    if is_table(st, x):
+        return x            # the record array of a table: its rows, column by column
     raise Unsupported("np.array(%r)" % (x,))
 
 
@@ -328,6 +330,12 @@ def np_argsort(interp, st, fr, args, kw):
     if len(shape) != 1:
         raise Unsupported("argsort of n-d array")
     n = shape[0]
+    # argsort is a function of its argument: the same values (the same element term) give the same permutation
+    probe = Sc(z3.Int('AS!'))
+    pv = fn((probe,))
+    akey = (str(getattr(n, 't', n)), to_z3(pv, 'real').sexpr() if isinstance(pv, Sc) else repr(pv))
+    if akey in _ARGSORT_MEMO:
+        return _ARGSORT_MEMO[akey][0]
     name = fresh_name('order')
     O = z3.Function(name, z3.IntSort(), z3.IntSort())
     Oinv = z3.Function(name + '_inv', z3.IntSort(), z3.IntSort())
@@ -340,10 +348,14 @@ def np_argsort(interp, st, fr, args, kw):
     res = PureArr((n,), lambda idx: o(idx[0]), 'nat')
     res_meta = ('argsort', name, x)
     PERMS[name] = (O, Oinv, n)
+    if kind != 'str':
+        _ARGSORT_MEMO[akey] = (res, st)
     return res
 
 
 PERMS = {}
+_ARGSORT_MEMO = {}
+sym.RESET_HOOKS.append(_ARGSORT_MEMO.clear)
 
 
 @model('numpy.argmin')
@@ -966,6 +978,8 @@ def call_method(interp, st, fr, obj, name, args, kw):
                 return Opaque('format', (obj, tuple(args)))     # the template and its arguments are kept
             return Opaque('str')
         raise Unsupported("str.%s" % name)
+    if isinstance(obj, ObjRef) and st.heap[obj.addr].cls == '<table>':
+        return table_method(interp, st, fr, obj, name, args, kw)
     if isinstance(obj, ObjRef) and st.heap[obj.addr].cls.startswith('<') and st.heap[obj.addr].cls != '<file>':
         # abstract record objects built by contract set-ups (e.g. the content of a FITS file):
         # method m is the attribute '%m' holding a SpecCallable
@@ -1247,3 +1261,74 @@ def np_logspace(interp, st, fr, args, kw):
             t = Sc(e.t.arg(0))
             st.assume(implies(compare('>', t, 0), compare('==', mathfn('pow10', e), t)))
     return PureArr((n,), fn, 'real')
+
+
+def table_method(interp, st, fr, t, name, args, kw):
+    cell = st.heap[t.addr]
+    if name == 'sort':
+        # Table.sort(key): every column is re-ordered by np.argsort(column key) (assumed dependency contract)
+        key = args[0]
+        cols = cell.attrs['@cols']
+        if key not in cols:
+            raise Raised('KeyError', key)
+        order = np_argsort(interp, st, fr, [cols[key]], {})
+        oshape, ofn, _ = npm.info(st, order)
+        new_cols = {}
+        for nm, col in cols.items():
+            inner = col.value if isinstance(col, Quantity) else col
+            cshape, cfn, ckind = npm.info(st, inner)
+            g = PureArr(tuple(cshape), (lambda cfn: lambda idx: cfn((ofn((idx[0],)),) + tuple(idx[1:])))(cfn), ckind)
+            new_cols[nm] = st.box(Quantity(g, col.unit) if isinstance(col, Quantity) else g)
+        attrs = dict(cell.attrs)
+        attrs['@cols'] = new_cols
+        origin = cell.attrs['@origin']
+        attrs['@origin'] = lambda k: origin(ofn((k,)))
+        st.heap[t.addr] = ObjCell('<table>', attrs)
+        return None
+    raise Unsupported("Table.%s" % name)
+
+
+def _new_hdu(st, data=None):
+    cols = []
+    if data is not None and is_table(st, data):
+        cols = [st.alloc_obj('<column>', {'unit': None, 'name': nm}) for nm in st.heap[data.addr].attrs['@cols']]
+    return st.alloc_obj('<hdu>', {'data': data, 'header': st.alloc_dict({}), 'columns': st.alloc_list(cols), 'name': None})
+
+
+@model('astropy.io.fits.PrimaryHDU')
+def fits_primary(interp, st, fr, args, kw):
+    return _new_hdu(st, kw.get('data', args[0] if args else None))
+
+
+@model('astropy.io.fits.BinTableHDU')
+def fits_bintable(interp, st, fr, args, kw):
+    h = _new_hdu(st, kw.get('data', args[0] if args else None))
+    if 'name' in kw:
+        st.set_attr(h, 'name', kw['name'])
+    return h
+
+
+@model('astropy.io.fits.ImageHDU')
+def fits_image(interp, st, fr, args, kw):
+    return _new_hdu(st, kw.get('data', args[0] if args else None))
+
+
+@model('astropy.io.fits.HDUList')
+def fits_hdulist(interp, st, fr, args, kw):
+    items = args[0] if args else st.alloc_list([])
+    if isinstance(items, (list, tuple)):
+        items = st.alloc_list(list(items))
+    def writeto(interp_, st_, a_, kw_):
+        st_.events.append(('fits.writeto', a_[0] if a_ else kw_.get('name'), list(st_.heap[items.addr].items), dict(kw_)))
+        return None
+    def append(interp_, st_, a_, kw_):
+        st_.heap[items.addr] = ListCell(st_.heap[items.addr].items + [a_[0]])
+        return None
+    return st.alloc_obj('<hdulist>', {'items': items, '%writeto': SpecCallable(writeto), '%append': SpecCallable(append)})
+
+
+@model('astropy.table.Table')
+def astropy_table(interp, st, fr, args, kw):
+    if args or kw:
+        raise Unsupported("Table(...) with arguments")
+    return table_new(st, {}, None)
